@@ -358,6 +358,8 @@ Next ==
                  (IF ~ev.ok THEN /\ cov' = cov \cup {<<"commit", "stays failed">>} /\ UNCHANGED <<divs, sess, cur, mode, stats>>
                   ELSE /\ divs' = Append(divs, Div("a failed commitment check must stay failed: the committed script may not run", [op |-> "commit", pre |-> Show(sess)], ev))
                        /\ mode' = "skip" /\ UNCHANGED <<cov, sess, cur, stats>>)
+             \* the failing step has not been passed: the listing, its marker and the two-column view are those of the state before it (C12)
+             ELSE IF ev.e \in {"Listing", "View"} THEN DoRun(ev)
              ELSE UNCHANGED <<divs, cov, sess, cur, mode, stats>>)
        ELSE /\ stats' = Bump("skipped") /\ UNCHANGED <<divs, cov, sess, cur, mode>>
 
